@@ -3025,9 +3025,81 @@ func ruleIdxRollback(prop string) ruleFn {
 					del[bedge{b, 0}] = true
 				}
 			}
+			// ... directly, or through a helper of the state that indexes the rule it is given (`reindex(ctx, id, rule, …)`)
+			helperRuleArg := func(h *ssa.Function) int {
+				if h == nil || h == fn || len(h.Blocks) == 0 {
+					return -1
+				}
+				if rn := namedOf(recvType(h)); rn == nil || typeKey(rn) != "core.IndexedState" {
+					return -1
+				}
+				at := -1
+				allInstrs(h, func(x ssa.Instruction) {
+					hc := callOf(x)
+					if hc == nil || hc.StaticCallee() != idx || len(hc.Args) < 4 {
+						return
+					}
+					for i, p := range h.Params {
+						if valueIs(hc.Args[3], p) {
+							at = i
+						}
+					}
+				})
+				return at
+			}
+			// ... or through a closure of this function that indexes a variable of it which holds the stored rule
+			closureRestores := func(c *ssa.CallCommon) bool {
+				mc, ok := c.Value.(*ssa.MakeClosure)
+				if !ok {
+					return false
+				}
+				h, _ := mc.Fn.(*ssa.Function)
+				if h == nil || h.Parent() != fn {
+					return false
+				}
+				res := false
+				allInstrs(h, func(x ssa.Instruction) {
+					hc := callOf(x)
+					if hc == nil || hc.StaticCallee() != idx || len(hc.Args) < 4 {
+						return
+					}
+					u, isU := hc.Args[3].(*ssa.UnOp)
+					if !isU || u.Op != token.MUL {
+						return
+					}
+					fv, isF := u.X.(*ssa.FreeVar)
+					if !isF {
+						return
+					}
+					for k, f := range h.FreeVars {
+						if f != fv || k >= len(mc.Bindings) {
+							continue
+						}
+						cell := mc.Bindings[k]
+						allInstrs(fn, func(y ssa.Instruction) {
+							if st, isS := y.(*ssa.Store); isS && st.Addr == cell && prevSrc(st.Val) {
+								res = true
+							}
+						})
+					}
+				})
+				return res
+			}
 			isRestore := func(in ssa.Instruction) bool {
 				c := callOf(in)
-				return c != nil && c.StaticCallee() == idx && len(c.Args) >= 4 && prevSrc(c.Args[3])
+				if c == nil {
+					return false
+				}
+				if c.StaticCallee() == idx && len(c.Args) >= 4 && prevSrc(c.Args[3]) {
+					return true
+				}
+				if closureRestores(c) {
+					return true
+				}
+				if i := helperRuleArg(c.StaticCallee()); i >= 0 && i < len(c.Args) && prevSrc(c.Args[i]) {
+					return true
+				}
+				return false
 			}
 			isErrRet := func(in ssa.Instruction) bool {
 				_, ok := in.(*ssa.Return)
@@ -3148,6 +3220,13 @@ func ruleTermPrepared(prop string) ruleFn {
 		for _, c := range calls {
 			arg := strip(c.Call.Args[len(c.Call.Args)-1])
 			same := false
+			// the terms of the fact that is stored already (to take them out before it is replaced) are terms of a stored value too
+			if dependsOn(arg, func(x ssa.Value) bool {
+				lk, ok := x.(*ssa.Lookup)
+				return ok && isFieldLoad(lk.X, "core.IndexedState", "IdToFact")
+			}) {
+				same = true
+			}
 			for _, sv := range stored {
 				if sameValue(strip(sv), arg) {
 					same = true
@@ -5149,6 +5228,61 @@ func ruleFactIdxLast(prop string) ruleFn {
 			_, ok := in.(*ssa.Return)
 			return ok && !isSuccessReturnPS(in)
 		}
+		// ... or every refusal after the change undoes it: it passes a call that puts terms (back) into the index —
+		// directly, or in a helper of the state that does so whatever its other arguments are (`reindex(id, rule,
+		// terms)` with `if rule == nil { return }` in front of the loop over the terms does not)
+		isTermIndexAdd := func(in ssa.Instruction) bool {
+			c := callOf(in)
+			if c == nil || len(c.Args) == 0 || c.StaticCallee() == nil || c.StaticCallee().Signature.Recv() == nil {
+				return false
+			}
+			rn := namedOf(c.StaticCallee().Signature.Recv().Type())
+			return rn != nil && typeKey(rn) == "core.TermIndex" && c.StaticCallee().Name() == "Add" && isFieldLoad(c.Args[0], idxState, "FactIndex")
+		}
+		undoes := func(in ssa.Instruction) bool {
+			if isTermIndexAdd(in) {
+				return true
+			}
+			c := callOf(in)
+			if c == nil || c.StaticCallee() == nil || c.StaticCallee() == fn || len(c.StaticCallee().Blocks) == 0 {
+				return false
+			}
+			h := c.StaticCallee()
+			if rn := namedOf(recvType(h)); (rn == nil || typeKey(rn) != idxState) && h.Parent() != fn {
+				return false
+			}
+			ok := false
+			allInstrs(h, func(x ssa.Instruction) {
+				if !isTermIndexAdd(x) {
+					return
+				}
+				// not hanging on a nil test of another argument
+				hangs := controlDependsOnClassic(h, x, func(v ssa.Value) bool {
+					b, isB := v.(*ssa.BinOp)
+					if !isB || (b.Op != token.EQL && b.Op != token.NEQ) {
+						return false
+					}
+					if !isNilConst(b.X) && !isNilConst(b.Y) {
+						return false
+					}
+					given := func(v ssa.Value) bool {
+						if u, isU := v.(*ssa.UnOp); isU && u.Op == token.MUL {
+							v = u.X
+						}
+						switch v.(type) {
+						case *ssa.Parameter, *ssa.FreeVar:
+							return true
+						}
+						return false
+					}
+					return given(b.X) || given(b.Y)
+				}, nil)
+				if !hangs {
+					ok = true
+				}
+			})
+			return ok
+		}
 		n := 0
 		var bad, badRet ssa.Instruction
 		allInstrs(fn, func(in ssa.Instruction) {
@@ -5156,7 +5290,7 @@ func ruleFactIdxLast(prop string) ruleFn {
 				return
 			}
 			n++
-			if h, _ := reach(fn, in, isErrRet, nil, nil); h != nil && bad == nil {
+			if h, _ := reach(fn, in, isErrRet, undoes, nil); h != nil && bad == nil {
 				bad, badRet = in, h
 			}
 		})
@@ -7672,7 +7806,15 @@ func ruleCastAllInputs(w *World, r *Report) {
 	cast := w.Func("core", "cast")
 	isCast := func(v ssa.Value) bool {
 		c, ok := v.(*ssa.Call)
-		return ok && c.Common().StaticCallee() == cast
+		if !ok || c.Common().StaticCallee() == nil {
+			return false
+		}
+		if c.Common().StaticCallee() == cast {
+			return true
+		}
+		// a variant of the cast (copy only where something changes): a function with a case for every number kind
+		y, _ := numericCanon(c.Common().StaticCallee(), 2)
+		return y
 	}
 	var delegate *ssa.CallCommon
 	var at ssa.Instruction
